@@ -51,7 +51,7 @@ G_ClearAfterGetsOnly == ~(\E c \in Clients : pc[c] = "clr_stop" /\ (\A h \in Has
                            /\ buf = <<>> /\ \E h \in Hashes : door[h])
 G_SixVictims        == ~(apc = "new_set" /\ Len(areg.victims) >= 6)
 G_ZeroCostVictim    == ~(apc \in {"new_set", "new_rej"} /\ zeroVictim)
-G_RefusedRewrite    == ~(\E c \in Clients : pc[c] = "set_send" /\ creg[c].t = "new" /\ creg[c].val \in RefuseVals /\
+G_RefusedRewrite    == ~(refusedRw /\ \E c \in Clients : pc[c] = "set_send" /\ creg[c].t = "new" /\ creg[c].val \in RefuseVals /\
                           store[creg[c].h] # NULL /\ store[creg[c].h].exp # creg[c].exp)
 G_TakeoverExpiredSlot == ~(apc = "new_set" /\ store[areg.item.h] # NULL /\ ~ConfOK(areg.item.conf, store[areg.item.h].conf)
                             /\ store[areg.item.h].exp # 0 /\ store[areg.item.h].exp < now)
